@@ -20,6 +20,9 @@ let () = run_lines (fun toks ->
   | ["int.read"; old; h] -> r3 (Model.x_int_read (chars_of_hex h) (z_of_string old))
   | ["int.readb"; base; old; h] -> r3 (Model.x_int_read_base (z_of_string base) (chars_of_hex h) (z_of_string old))
   | ["int.write"; z] -> hex_of_chars (Model.x_int_write (z_of_string z))
+  | ["int.abs"; z] -> hex_of_chars (Model.x_int_abs (z_of_string z))
+  | ["int.rt"; z; old; tl] ->
+    let (t, r) = Model.x_int_rt (z_of_string z) (z_of_string old) (chars_of_hex tl) in hex_of_chars t ^ " " ^ r3 r
   | ["int.cstr"; h] -> string_of_z (Model.x_int_of_string (chars_of_hex h))
   | ["int.seq"; n; h] ->
     let (((xs, r), e), f) = Model.x_int_seq (nat_of_int (int_of_string n)) (chars_of_hex h) in
@@ -28,6 +31,9 @@ let () = run_lines (fun toks ->
     let (((q, r), e), f) = Model.x_rat_read (chars_of_hex h) in
     rat_str q ^ " " ^ hex_of_chars r ^ " " ^ fl e f
   | ["rat.write"; n; d] -> hex_of_chars (Model.x_rat_write (z_of_string n) (z_of_string d))
+  | ["rat.rt"; n; d; tl] ->
+    let (t, (((q, r), e), f)) = Model.x_rat_rt (z_of_string n) (z_of_string d) (chars_of_hex tl) in
+    hex_of_chars t ^ " " ^ rat_str q ^ " " ^ hex_of_chars r ^ " " ^ fl e f
   | ["rat.norm"; n; d] -> rat_str (Model.x_rat_norm (z_of_string n) (z_of_string d))
   | ["rat.seq"; n; h] ->
     let (((xs, r), e), f) = Model.x_rat_seq (nat_of_int (int_of_string n)) (chars_of_hex h) in
@@ -37,6 +43,13 @@ let () = run_lines (fun toks ->
   | ["elt.read"; bal; p; h] -> r3 (Model.x_elt_read (b bal) (z_of_string p) (chars_of_hex h))
   | ["elt.readw"; bal; lo; hi; p; h] ->
     r3 (Model.x_elt_read_word (b bal) (z_of_string lo) (z_of_string hi) (z_of_string p) (chars_of_hex h))
+  | ["elt.rt"; bal; word; lo; hi; p; z; tl] ->
+    let (t, r) = Model.x_elt_rt (b bal) (b word) (z_of_string lo) (z_of_string hi) (z_of_string p) (z_of_string z) (chars_of_hex tl) in
+    hex_of_chars t ^ " " ^ r3 r
+  | ["ru.rt"; k; hx; a; tl] ->
+    let (t, r) = Model.x_ru_rt (nat_of_int (int_of_string k - 6)) (b hx) (z_of_string a) (chars_of_hex tl) in hex_of_chars t ^ " " ^ r3 r
+  | ["ri.rt"; k; hx; a; tl] ->
+    let (t, r) = Model.x_ri_rt (nat_of_int (int_of_string k - 6)) (b hx) (z_of_string a) (chars_of_hex tl) in hex_of_chars t ^ " " ^ r3 r
   | ["ru.write"; k; hx; a] -> hex_of_chars (Model.x_ru_write (nat_of_int (int_of_string k - 6)) (b hx) (z_of_string a))
   | ["ru.read"; k; hx; h] -> r3 (Model.x_ru_read (nat_of_int (int_of_string k - 6)) (b hx) (chars_of_hex h))
   | ["ri.write"; k; hx; a] -> hex_of_chars (Model.x_ri_write (nat_of_int (int_of_string k - 6)) (b hx) (z_of_string a))
